@@ -582,3 +582,60 @@ def onPacket (s : State) (sp : Space) : List Frame → Except ErrorCode State
 
 end State
 end Quic.Stream.RecvFlow
+
+/-! ## pinned source facts (tie G): what `tools/extractors/frame_table.py` must find in /repo for the model above
+    to be a transcription of the code. `QuicProofs/Bridge/FrameTable.lean` proves `Generated.x = Pinned.x`. -/
+namespace Quic.Stream.RecvFlow.Pinned
+open Quic.Rfc (ErrorCode)
+
+/-- the `transport::Error` constants the receive side uses, by name -/
+def codeOfName : String → Option ErrorCode
+  | "NO_ERROR" => some .noError | "INTERNAL_ERROR" => some .internalError
+  | "CONNECTION_REFUSED" => some .connectionRefused | "FLOW_CONTROL_ERROR" => some .flowControlError
+  | "STREAM_LIMIT_ERROR" => some .streamLimitError | "STREAM_STATE_ERROR" => some .streamStateError
+  | "FINAL_SIZE_ERROR" => some .finalSizeError | "FRAME_ENCODING_ERROR" => some .frameEncodingError
+  | "TRANSPORT_PARAMETER_ERROR" => some .transportParameterError
+  | "CONNECTION_ID_LIMIT_ERROR" => some .connectionIdLimitError | "PROTOCOL_VIOLATION" => some .protocolViolation
+  | "INVALID_TOKEN" => some .invalidToken | "APPLICATION_ERROR" => some .applicationError
+  | "CRYPTO_BUFFER_EXCEEDED" => some .cryptoBufferExceeded | "KEY_UPDATE_ERROR" => some .keyUpdateError
+  | "AEAD_LIMIT_REACHED" => some .aeadLimitReached
+  | _ => none
+
+/-- `StreamFc.acquireUpTo`: `if offset > latest { FLOW_CONTROL_ERROR }` -/
+def checkStreamWindow : String × String := (">", "FLOW_CONTROL_ERROR")
+/-- `ConnFc.acquire`: `if remaining < desired { FLOW_CONTROL_ERROR }` -/
+def checkConnWindow : String × String := ("<", "FLOW_CONTROL_ERROR")
+/-- `Recv.onData`: offset + len overflow -/
+def checkDataOverflow : String × String := ("checked_add_usize", "FLOW_CONTROL_ERROR")
+def checkOutOfRange : String × String := ("OutOfRange", "FLOW_CONTROL_ERROR")
+def checkInvalidFin : String × String := ("InvalidFin", "FINAL_SIZE_ERROR")
+/-- `Recv.onReset`: `if final_size != total { FINAL_SIZE_ERROR }` -/
+def checkResetFinalSize : String × String := ("!=", "FINAL_SIZE_ERROR")
+/-- `RemoteInitiated.onRemoteOpen`: `if stream_id >= not_allowed { STREAM_LIMIT_ERROR }` -/
+def checkStreamLimit : String × String := (">=", "STREAM_LIMIT_ERROR")
+/-- `State.openIfNecessary`, local id: `if stream_id >= first_unopened { STREAM_STATE_ERROR }` -/
+def checkLocalUnopened : String × String := (">=", "STREAM_STATE_ERROR")
+def checkMaxStreamDataRecvOnly : String × String := ("!self.has_send", "STREAM_STATE_ERROR")
+def checkRetireSeq : String × String := (">=", "InvalidSequenceNumber")
+def checkRetireDcid : String × String := ("==", "InvalidSequenceNumber")
+def retireErrorCode : String := "PROTOCOL_VIOLATION"
+def decoderErrorCode : String := "PROTOCOL_VIOLATION"
+def ncidRetireInvariant : String := "retire_prior_to <= sequence_number"
+def ncidLenRange : Nat × Nat := (1, 20)
+
+def dispatch : List (String × String) :=
+  [("Ack", "ack"), ("ConnectionClose", "connection_close"), ("Crypto", "crypto"), ("DataBlocked", "data_blocked"),
+   ("Datagram", "datagram"), ("DcStatelessResetTokens", "dc_stateless_reset_tokens"), ("HandshakeDone", "handshake_done"),
+   ("MaxData", "max_data"), ("MaxStreamData", "max_stream_data"), ("MaxStreams", "max_streams"),
+   ("MtuProbingComplete", "mtu_probing_complete"), ("NewConnectionId", "new_connection_id"), ("NewToken", "new_token"),
+   ("PathChallenge", "path_challenge"), ("PathResponse", "path_response"), ("ResetStream", "reset_stream"),
+   ("RetireConnectionId", "retire_connection_id"), ("StopSending", "stop_sending"), ("Stream", "stream"),
+   ("StreamDataBlocked", "stream_data_blocked"), ("StreamsBlocked", "streams_blocked")]
+
+/-- handlers whose trait default rejects (so a space that does not override them refuses the frame) -/
+def defaultRejecting : List String :=
+  ["data_blocked", "datagram", "dc_stateless_reset_tokens", "handshake_done", "max_data", "max_stream_data", "max_streams",
+   "new_connection_id", "new_token", "path_challenge", "path_response", "reset_stream", "retire_connection_id",
+   "stop_sending", "stream", "stream_data_blocked", "streams_blocked"]
+
+end Quic.Stream.RecvFlow.Pinned
